@@ -22,6 +22,14 @@ theorem reply_records (s s' : CState) (id seq : Nat) (out : List SubMsg) (h : re
   refine ⟨w, hw, AMap.find?_erase_self _ _, by simp [AMap.find?_insert], ?_, rfl⟩
   intro k hk; simp [AMap.find?_insert, hk]
 
+/-- a reply is consumed by being answered: a second reply carrying the same id (a replayed or duplicated
+callback) finds nothing waiting and fails, so one submission can never be recorded as two packets -/
+theorem reply_twice_fails (s s' : CState) (id seq : Nat) (out : List SubMsg) (res : ReplyResult)
+    (h : reply s id (.ok seq) = .ok (s', out)) : reply s' id res = .error .invalidReplyId := by
+  obtain ⟨_, _, hnone, _⟩ := reply_records s s' id seq out h
+  unfold reply
+  rw [hnone]
+
 /-- any reply other than "submitted with sequence n" fails — so the chain aborts the transaction -/
 theorem reply_failure_fails (s : CState) (id : Nat) (res : ReplyResult) (hres : ∀ seq, res ≠ .ok seq) :
     ∃ e, reply s id res = .error e := by
@@ -90,6 +98,49 @@ theorem stray_noop (s : CState) (m : SudoMsg)
     rcases h with h | h
     · simp [h]
     · by_cases hc : ch ≠ s.config.proto.channel <;> simp [hc, h]
+
+/-- a success acknowledgement is final: whatever arrives later for the same sequence number — a repeated
+acknowledgement, an error acknowledgement, a timeout — changes nothing and sends nothing, so a delivered transfer can
+never be turned into a refundable one by a replayed callback -/
+theorem acked_is_final (s s' : CState) (seq : Nat) (out : List SubMsg)
+    (h : sudo s (.ack s.config.proto.channel seq true) = .ok (s', out)) (m : SudoMsg)
+    (hm : m = .timeout s.config.proto.channel seq ∨ ∃ b, m = .ack s.config.proto.channel seq b) :
+    sudo s' m = .ok (s', []) := by
+  have hs' : s'.config = s.config ∧ s'.inflight.find? seq = none := by
+    unfold sudo at h
+    simp only [ne_eq, not_true_eq_false, if_false] at h
+    split at h
+    · rename_i hn; cases h; exact ⟨rfl, hn⟩
+    · simp only [if_true, Except.ok.injEq, Prod.mk.injEq] at h
+      rw [← h.1]; exact ⟨rfl, AMap.find?_erase_self _ _⟩
+  apply stray_noop
+  rcases hm with hm | ⟨b, hm⟩ <;> subst hm <;> simp only <;> exact Or.inr hs'.2
+
+/-- timeouts are idempotent: a timeout delivered twice leaves the state of the first -/
+theorem timeout_idempotent (s s1 s2 : CState) (ch : String) (seq : Nat) (o1 o2 : List SubMsg)
+    (h1 : sudo s (.timeout ch seq) = .ok (s1, o1)) (h2 : sudo s1 (.timeout ch seq) = .ok (s2, o2)) :
+    (∀ k, s2.inflight.find? k = s1.inflight.find? k) ∧ s2.st = s1.st ∧ s2.config = s1.config ∧ o2 = [] := by
+  simp only [sudo] at h1 h2
+  by_cases hc : ch ≠ s.config.proto.channel
+  · rw [if_pos hc] at h1; simp only [Except.ok.injEq, Prod.mk.injEq] at h1
+    rw [← h1.1] at h2
+    rw [if_pos hc] at h2; simp only [Except.ok.injEq, Prod.mk.injEq] at h2
+    rw [← h2.1, ← h1.1]; exact ⟨fun _ => rfl, rfl, rfl, h2.2.symm⟩
+  · rw [if_neg hc] at h1
+    split at h1
+    · rename_i hn
+      simp only [Except.ok.injEq, Prod.mk.injEq] at h1
+      rw [← h1.1] at h2
+      rw [if_neg hc] at h2; simp only [hn, Except.ok.injEq, Prod.mk.injEq] at h2
+      rw [← h2.1, ← h1.1]; exact ⟨fun _ => rfl, rfl, rfl, h2.2.symm⟩
+    · rename_i p hp
+      simp only [Except.ok.injEq, Prod.mk.injEq] at h1
+      rw [← h1.1] at h2
+      simp only [if_neg hc, AMap.find?_insert_self, Except.ok.injEq, Prod.mk.injEq] at h2
+      rw [← h2.1, ← h1.1]
+      refine ⟨fun k => ?_, rfl, rfl, h2.2.symm⟩
+      simp only [AMap.find?_insert]
+      split <;> rfl
 
 theorem mem_take_filter {α} (l : List α) (f : α → Bool) (n : Nat) (x : α) (h : x ∈ (l.filter f).take n) : f x = true :=
   (List.mem_filter.mp (List.mem_of_mem_take h)).2
